@@ -20,7 +20,7 @@ def rec_lattice(seed):
     from photutils.aperture import ApertureStats
     rng = random.Random(seed)
     h, w = rng.randint(2, 7), rng.randint(2, 8)
-    lo_v, hi_v = (-6, 24) if rng.random() < 0.8 else (-22, 5)          # mostly negative: sky apertures on over-subtracted data
+    lo_v, hi_v = rng.choice([(-6, 24), (-6, 24), (-6, 24), (-22, 5), (0, 30)])          # (-22, 5): sky apertures on over-subtracted data; (0, 30): raw counts
     data = [[rng.randint(lo_v, hi_v) for _ in range(w)] for _ in range(h)]
     if rng.random() < 0.3:      # outliers for the sigma clip
         for _ in range(2):
@@ -57,8 +57,17 @@ def rec_lattice(seed):
     ap = build(sh, cx, cy, q)
     with warnings.catch_warnings():
         warnings.simplefilter('ignore')
+        lb_arg = float(bkg) if bkg else None
+        if lo_v == 0 and not nonfin and seed % 2 and float(np.min(d)) >= 0:
+            # a raw unsigned-integer frame with the local background given in the same dtype (pixels below it must not wrap around)
+            dt = [np.uint16, np.uint8, np.uint32][seed % 3]
+            d = d.astype(dt)
+            if bkg > 0:
+                lb_arg = dt(bkg)
+            elif bkg == 0 and seed % 4 == 1:
+                bkg = 9; lb_arg = dt(9)
         st = ApertureStats(d, ap, error=np.array(err, dtype=float), mask=m, sigma_clip=SigmaClip(sigma=float(sigma), maxiters=maxiters) if sigma else None,
-                           sum_method=method, subpixels=s, local_bkg=float(bkg) if bkg else None)
+                           sum_method=method, subpixels=s, local_bkg=lb_arg)
         vals = {n: getattr(st, n) for n in ('min', 'max', 'mean', 'median', 'std', 'var', 'mad_std', 'xcentroid', 'ycentroid', 'sum', 'sum_aper_area', 'center_aper_area')}
     rec = {'id': seed, 'kind': 'lattice', 'shape': sh, 'cx': cx, 'cy': cy, 'q': q, 's': s, 'data': data, 'mask': mask, 'nonfinite': nonfin, 'bkg': bkg,
            'sigma': sigma, 'maxiters': maxiters, 'nan': {}}
